@@ -27,11 +27,11 @@ NUM_MODEL = {}
 
 def configure(tier, seed):
     thorough = tier == 'thorough'
-    CFG.update(tier=tier, seed=seed, numerals=NUMERALS if thorough else [NUMERALS[seed % 3]],
+    CFG.update(tier=tier, seed=seed, numerals=NUMERALS if thorough else [NUMERALS[seed % 2], '2.5'],
                currency_cultures=None if thorough else ['en-us', 'zh-cn', 'fr-fr', ['es-es', 'pt-br', 'nl-nl', 'de-de', 'it-it', 'es-mx'][seed % 6]])
     return {'shard_depth': 99, 'progress': True,
             'bounds': {'numerals': CFG['numerals'], 'currency_cultures': CFG['currency_cultures'] or 'all', 'amounts': [(1, 1), (3, 50), (10, 5), (1, 99)]},
-            'blocks': ['all'] if thorough else ['numeral %s' % CFG['numerals'][0], 'currency cultures %r' % CFG['currency_cultures']]}
+            'blocks': ['all'] if thorough else ['numerals %r' % CFG['numerals'], 'currency cultures %r' % CFG['currency_cultures']]}
 
 
 def worker_init():
